@@ -24,7 +24,7 @@ SPEC = dict(
     required=["fake_git_runs", "fake_hg_runs", "real_git_runs", "k12_evaluations", "class:squote", "class:dquote",
               "class:backslash", "class:newline", "class:leading-dash", "class:dollar", "class:backtick",
               "hostile_paths_checked", "templates_from_config", "config_templates_with_OLD_NEW_words",
-              "templates_from_setup_cfg", "ini_templates_with_percent"],
+              "templates_from_setup_cfg", "ini_templates_with_percent", "empty_tag_message_from_config"],
     anchors=[("vcs", "commit"), ("cli", "_sub_msg_template"), ("cli", "update")],
 )
 
@@ -110,7 +110,7 @@ def build_project(R, names, commit_msg_cfg=None, tag_msg_cfg=None):
              "commit = true", "tag = true", "push = false"]
     if commit_msg_cfg:
         lines.append(f"commit_message = {projects.toml_str(commit_msg_cfg)}")
-    if tag_msg_cfg:
+    if tag_msg_cfg is not None:
         lines.append(f"tag_message = {projects.toml_str(tag_msg_cfg)}")
     lines += ["", "[bumpver.file_patterns]", '"bumpver.toml" = [\'current_version = "{version}"\']']
     files = {}
@@ -151,7 +151,9 @@ def run_fake(ctx, case):
             tm, used_t = gen_template(R)
         else:
             via_cfg = False
-    ini = via_cfg and R.random() < 0.5
+    if via_cfg and R.random() < 0.15:
+        tm, used_t = "", {"empty-tag-message"}   # documented: an empty tag message gives a lightweight tag
+    ini = via_cfg and R.random() < 0.5 and tm != ""
     if ini:
         names = [n for n in names if not any(c in n for c in "=:#;%[]") and n == n.strip() and "  " not in n] or ["plain.txt"]
         ini = not any(t.startswith(("#", ";")) for t in (cm, tm))
@@ -164,9 +166,10 @@ def run_fake(ctx, case):
         if "%" in cm + tm:
             ctx.count("ini_templates_with_percent")
     results = {}
-    for variant, (c_t, t_t) in (("benign", ("m", "t")), ("hostile", (cm, tm))):
+    benign_t = "t" if tm != "" else ""   # an empty tag message changes the command shape (lightweight tag) by design
+    for variant, (c_t, t_t) in (("benign", ("m", benign_t)), ("hostile", (cm, tm))):
         d = harness.new_project(files if variant == "hostile" or not via_cfg else
-                                mk(R, names, commit_msg_cfg="m", tag_msg_cfg="t"))
+                                mk(R, names, commit_msg_cfg="m", tag_msg_cfg=benign_t))
         fake = harness.FakeVCS(d, vcs)
         try:
             fake.set_out("status", "")
@@ -192,6 +195,8 @@ def run_fake(ctx, case):
     ctx.evaluated(sample={"argv": args, "paths": names, "vcs": vcs})
     want_cm = expand(cm, OLD, NEW, OLD_PEP, NEW_PEP, cli=not via_cfg)
     want_tm = expand(tm, OLD, NEW, OLD_PEP, NEW_PEP, cli=not via_cfg)
+    if via_cfg and tm == "":
+        ctx.count("empty_tag_message_from_config")
     if via_cfg:
         ctx.count("templates_from_config")
         if "shorthand" in used_c | used_t:
